@@ -219,7 +219,14 @@ func (propC01) Gen(seed uint64, tier string, idx int) any {
 	if tier == "thorough" && idx%25000 == 77 {
 		// more than 2^20 pixels: backward references at the very edge of the LZ77
 		// window (the generator repeats the first row at the end of such pictures)
-		p.Img = ImgSpec{Family: "pal", Colors: 256, W: r.Range(4300, 4700), H: r.Range(226, 244), Seed: r.Next(), Alpha: "opaque", Type: "nrgba"}
+		// the format's largest backward distance is 2^20-120 pixels; the repeat is placed
+		// 0..118 pixels beyond it (rows*width just above the limit)
+		rows := r.Range(64, 119)
+		wd := (1<<20 - 120 + rows) / rows
+		if (wd+1)*rows < 1<<20 && r.Bool() {
+			wd++
+		}
+		p.Img = ImgSpec{Family: "pal", Colors: 256, W: wd, H: rows + 1, Seed: r.Next(), Alpha: "opaque", Type: "nrgba"}
 		p.Opt = GenLosslessOpts(r, 0)
 		p.Opt.Quality, p.Opt.Method = float32(r.Pick(80, 90, 100)), r.Range(2, 4)
 		p.Prior, p.Second, p.WF = nil, nil, WriteFault{}
